@@ -17,16 +17,17 @@ class InvalidEffect(Monitor):
         if is_last(rec.ts):
             return
         ad, env = ctx.adapter, ctx.env
-        n = ctx.scratch.get("visits", 0)
-        ctx.scratch["visits"] = n + 1
-        if n % ad.fork_every:
-            return
         ill = ad.illegal_actions(rec.state, env, ctx.det_rng(rec.state, "c05"))
         if ill is None:
             return
         actions, which, complete = ill
         if len(actions) == 0:
             ctx.stats.probe("state_without_illegal_action")
+            return
+        # expensive environments fork on every k-th state *that has an illegal action* (states without one cost nothing)
+        n = ctx.scratch.get("visits", 0)
+        ctx.scratch["visits"] = n + 1
+        if n % ad.fork_every:
             return
         ns, nts = ctx.sys.fork(rec.jstate, np.asarray(actions))
         ctx.stats.inc(ctx.stats.faults, "ILLEGAL_ENUM", len(actions))
